@@ -715,23 +715,55 @@ func (c *Context) Cbrt(d, x *Decimal) (Condition, error) {
 		}
 	}
 
-	z0.Set(x)
+	// z approximates the root of ax to about twice the requested precision.
+	// All arithmetic on cubes below is exact (BaseContext does not round).
+	exact := MakeErrDecimal(&BaseContext)
+	var cube Decimal
+
+	// A perfect cube whose root fits the precision: the nearest candidate is
+	// the root itself, whatever the rounding mode.
+	var t Decimal
+	hc := *c
+	hc.Rounding = RoundHalfEven
+	tres := hc.round(&t, &z)
+	if t.Form == Finite && tres&(Subnormal|Overflow|Clamped) == 0 {
+		exact.Mul(&cube, &t, &t)
+		exact.Mul(&cube, &cube, &t)
+		if exact.Err() == nil && cube.Cmp(&ax) == 0 {
+			d.Set(&t)
+			d.Negative = neg
+			return 0, nil
+		}
+	}
+
 	res := c.round(d, &z)
+	if d.Form == Finite && !d.IsZero() && res&(Subnormal|Overflow|Clamped) == 0 {
+		// z is off by a little, so a directed rounding of z can land two
+		// units away from the root: step back while the neighbour towards
+		// the root is still on the far side of it.
+		var ulp, nb Decimal
+		for i := 0; i < 2; i++ {
+			ulp.SetFinite(1, d.Exponent-(int32(c.Precision)-int32(d.NumDigits())))
+			exact.Sub(&nb, d, &ulp)
+			exact.Mul(&cube, &nb, &nb)
+			exact.Mul(&cube, &cube, &nb)
+			if exact.Err() == nil && cube.Cmp(&ax) > 0 {
+				d.Set(&nb)
+				continue
+			}
+			exact.Add(&nb, d, &ulp)
+			exact.Mul(&cube, &nb, &nb)
+			exact.Mul(&cube, &cube, &nb)
+			if exact.Err() == nil && cube.Cmp(&ax) < 0 {
+				d.Set(&nb)
+				continue
+			}
+			break
+		}
+		res |= c.round(d, d)
+	}
 	res, err := c.goError(res)
 	d.Negative = neg
-
-	// Set z = d^3 to check for exactness.
-	ed.Mul(&z, d, d)
-	ed.Mul(&z, &z, d)
-
-	if err := ed.Err(); err != nil {
-		return 0, err
-	}
-
-	// Result is exact
-	if z0.Cmp(&z) == 0 {
-		return 0, nil
-	}
 	return res, err
 }
 
